@@ -88,6 +88,8 @@ struct Binding<'w> {
     used_seeds: BTreeSet<u64>,
     /// real = spec + shift (as i128)
     shift: i128,
+    /// after a conflicting hand-in the spec's timestamps of generated secrets are not binding
+    lenient: bool,
 }
 
 impl<'w> Binding<'w> {
@@ -121,7 +123,7 @@ impl<'w> Binding<'w> {
         let ts = self.real_ts(spec_ts).expect("spec timestamp not representable");
         match self.generated.get(&spec_id) {
             Some(g) => {
-                if g.timestamp() != ts {
+                if g.timestamp() != ts && !self.lenient {
                     eprintln!("harness: behaviour hands in generated secret {spec_id} under another timestamp");
                     std::process::exit(2);
                 }
@@ -194,11 +196,33 @@ fn replay_one(w: &World, b: &Value, out: &mut Outcome) -> Verdict {
             std::process::exit(2);
         }
     };
-    let mut bind = Binding { w, generated: BTreeMap::new(), used_seeds: BTreeSet::new(), shift };
+    let mut bind = Binding { w, generated: BTreeMap::new(), used_seeds: BTreeSet::new(), shift, lenient: false };
     let mut y = SecretBundle::init();
-    let mut generated_any = false;
+    // Which timestamp survives when the SAME secret is handed in under two timestamps is not part
+    // of C36: from such a step on only the property itself is checked on the real state (latest is
+    // the maximum of what the bundle holds, generated is newer), not equality with the spec's choice.
+    let mut conflict = false;
     for (k, step) in b["steps"].as_array().expect("steps").iter().enumerate() {
         let op = step["op"].as_str().expect("op");
+        {
+            let handed: Vec<(u64, u64)> = match op {
+                "insert" => vec![(step["id"].as_u64().unwrap(), step["ts"].as_u64().unwrap())],
+                "extend" => step["other"].as_array().unwrap().iter().map(|e| (e["id"].as_u64().unwrap(), e["ts"].as_u64().unwrap())).collect(),
+                "from_secrets" => step["list"].as_array().unwrap().iter().map(|e| (e["id"].as_u64().unwrap(), e["ts"].as_u64().unwrap())).collect(),
+                _ => vec![],
+            };
+            for (n, (id, ts)) in handed.iter().enumerate() {
+                if handed[..n].iter().any(|(i2, t2)| i2 == id && t2 != ts) {
+                    conflict = true;
+                }
+                if op != "from_secrets"
+                    && y.get(&bind.real_id(*id)).is_some_and(|s| Some(s.timestamp()) != bind.real_ts(*ts))
+                {
+                    conflict = true;
+                }
+            }
+            bind.lenient = conflict;
+        }
         match op {
             "insert" => {
                 let s = bind.secret(step["id"].as_u64().unwrap(), step["ts"].as_u64().unwrap());
@@ -247,7 +271,6 @@ fn replay_one(w: &World, b: &Value, out: &mut Outcome) -> Verdict {
                 }
             }
             "generate" => {
-                generated_any = true;
                 let spec_err = step["err"].as_bool().unwrap();
                 let spec_overflow = step["overflow"].as_bool().unwrap();
                 // the id the spec chose for the fresh secret (on error none is produced: any seed)
@@ -269,7 +292,7 @@ fn replay_one(w: &World, b: &Value, out: &mut Outcome) -> Verdict {
                         return Verdict::Violation(sig, format!("step {k} generate with latest {latest:?} panicked: {p}"));
                     }
                     Ok(Err(e)) => {
-                        if !spec_err {
+                        if !spec_err && !conflict {
                             return Verdict::Violation(
                                 "generate-differs-from-spec",
                                 format!("step {k} generate returned Err({e}), spec says a secret with ts {}", step["ts"]),
@@ -295,13 +318,15 @@ fn replay_one(w: &World, b: &Value, out: &mut Outcome) -> Verdict {
                                 );
                             }
                         }
-                        if spec_err || spec_overflow {
+                        if conflict {
+                            // keep going with the id the spec chose; the timestamp is the code's
+                        } else if spec_err || spec_overflow {
                             return Verdict::Violation(
                                 "generate-differs-from-spec",
                                 format!("step {k} generate returned ts {}, spec says err={spec_err} overflow={spec_overflow}", g.timestamp()),
                             );
                         }
-                        if bind.spec_ts(g.timestamp()) != step["ts"].as_i64().unwrap() as i128 {
+                        if !conflict && bind.spec_ts(g.timestamp()) != step["ts"].as_i64().unwrap() as i128 {
                             return Verdict::Violation(
                                 "generate-differs-from-spec",
                                 format!(
@@ -338,6 +363,9 @@ fn replay_one(w: &World, b: &Value, out: &mut Outcome) -> Verdict {
                 ),
             );
         }
+        if conflict {
+            continue;
+        }
         let got_latest_spec = got_latest.map(|i| bind.spec_id(&i)).unwrap_or(0);
         if got_latest_spec != step["latest"].as_i64().unwrap() {
             return Verdict::Violation(
@@ -354,7 +382,9 @@ fn replay_one(w: &World, b: &Value, out: &mut Outcome) -> Verdict {
             );
         }
     }
-    let _ = generated_any;
+    if conflict {
+        out.count("behaviours_with_conflicting_timestamps_property_only");
+    }
     Verdict::Ok
 }
 
@@ -446,16 +476,20 @@ fn record(args: &Args) {
         if !top_run {
             ts_choices.push(rng.below(now));
         }
-        let pool: Vec<[u8; 32]> = (0..rng.range(2, 7)).map(|_| rng.bytes(32).try_into().unwrap()).collect();
+        // every pool secret has ONE timestamp per run (the same secret under two timestamps is outside C36);
+        // different secrets collide on timestamps often
+        let pool: Vec<([u8; 32], u64)> =
+            (0..rng.range(2, 7)).map(|_| (rng.bytes(32).try_into().unwrap(), *rng.pick(&ts_choices))).collect();
         let mut generated: Vec<GroupSecret> = Vec::new();
         let mut events: Vec<Recorded> = Vec::new();
         let mut all_ids: BTreeSet<GroupSecretId> = BTreeSet::new();
         let mut y = SecretBundle::init();
-        let mut pick = |rng: &mut Rng, generated: &Vec<GroupSecret>| -> GroupSecret {
+        let pick = |rng: &mut Rng, generated: &Vec<GroupSecret>| -> GroupSecret {
             if !generated.is_empty() && rng.chance(1, 3) {
                 rng.pick(generated).clone()
             } else {
-                GroupSecret::new(*rng.pick(&pool), *rng.pick(&ts_choices))
+                let (bytes, ts) = *rng.pick(&pool);
+                GroupSecret::new(bytes, ts)
             }
         };
         let calls = rng.range(3, 14);
@@ -478,7 +512,7 @@ fn record(args: &Args) {
                 }
                 1 => {
                     let id = if generated.is_empty() || rng.chance(2, 3) {
-                        GroupSecret::new(*rng.pick(&pool), 0).id()
+                        GroupSecret::new(rng.pick(&pool).0, 0).id()
                     } else {
                         rng.pick(&generated).id()
                     };
@@ -523,11 +557,19 @@ fn record(args: &Args) {
                             ev = json!({"ev": "Generate", "err": false, "ts": g.timestamp().wrapping_sub(shift).min(TLC_MAX),
                                         "wlo": wlo, "whi": whi});
                             if g.timestamp() < shift {
-                                // wrapped around: not representable, report directly
+                                // not representable in this shifted run: judge it here
+                                let lt = y.latest().map(|l| l.timestamp());
+                                let sig = if lt == Some(u64::MAX) {
+                                    "generate-overflow-at-max-timestamp"
+                                } else if lt.is_some_and(|l| g.timestamp() <= l) {
+                                    "generated-not-newer"
+                                } else {
+                                    "generate-differs-from-spec"
+                                };
                                 out.violation(
                                     "C36",
-                                    "generate-overflow-at-max-timestamp",
-                                    format!("generate returned timestamp {} with latest at u64::MAX", g.timestamp()),
+                                    sig,
+                                    format!("generate returned timestamp {} while the latest secret has {lt:?}", g.timestamp()),
                                     json!({"run": run, "call": call}),
                                 );
                                 failed = true;
